@@ -1644,33 +1644,49 @@ def run(ctx):
 
 def search(ctx, broken):
     """An obligation or the correspondence broke without an oracle failure in `run`: run the
-    thorough zoo through the oracle on the real code."""
+    thorough zoo and all oracles on the real code once more (fresh seed-derived choices)."""
     saved = ctx.tier
     ctx.tier = 'thorough'
     try:
         zoo = instantiate(ctx, build_zoo(ctx))
         E, exc, H = impl_matrices(zoo)
         oracle_pairs(ctx, zoo, E, exc, H)
+        sub = core.Ctx(ctx.pid, 'thorough', ctx.seed + 1)
+        try:
+            spaces, elems = run_membership(sub, zoo)
+            run_elements(sub, spaces, elems)
+            run_derived(sub, spaces, elems)
+        except core.DriverBroken:
+            pass
+        for v in sub.violations:
+            ctx.violation(v['key'], v['what'], v['replay'])
     finally:
         ctx.tier = saved
 
 
 def replay(ctx, case):
-    """Re-run one recorded case on the real code."""
+    """Re-run one recorded case on the real code; returns a description if it still fails."""
+    sub = core.Ctx(ctx.pid, 'thorough', ctx.seed)
     if case.get('kind') in ('pair', 'construct'):
-        saved = ctx.tier
-        ctx.tier = 'thorough'
-        try:
-            recipes = build_zoo(ctx)
-        finally:
-            ctx.tier = saved
+        recipes = build_zoo(sub)
         want = {case.get('a'), case.get('b'), case.get('c'), case.get('recipe')} - {None}
-        sub = [r for r in recipes if r[0] in want]
-        sub_ctx = core.Ctx(ctx.pid, 'quick', ctx.seed)
-        zoo = instantiate(sub_ctx, sub)
+        zoo = instantiate(sub, [r for r in recipes if r[0] in want])
         E, exc, H = impl_matrices(zoo)
-        oracle_pairs(sub_ctx, zoo, E, exc, H)
-        if sub_ctx.violations:
-            return '; '.join(v['key'] + ' :: ' + v['what'] for v in sub_ctx.violations[:3])
-        return None
+        oracle_pairs(sub, zoo, E, exc, H)
+    else:
+        zoo = instantiate(sub, build_zoo(sub))
+        try:
+            spaces, elems = run_membership(sub, zoo)
+            run_elements(sub, spaces, elems)
+            run_derived(sub, spaces, elems)
+        except core.DriverBroken:
+            pass
+        keep = [v for v in sub.violations
+                if all(v['replay'].get(k) == case.get(k) for k in ('kind', 'space', 'op', 'input',
+                                                                    'index', 'x', 'dtype'))]
+        sub.violations = keep
+    known = core.load_known(ctx.pid)
+    fails = [v for v in sub.violations if core.match_known(v, known) is None]
+    if fails:
+        return '; '.join(v['key'] + ' :: ' + v['what'] for v in fails[:3])[:600]
     return None
